@@ -1,21 +1,26 @@
 ----------------------------- MODULE MC_ArbFloat -----------------------------
 (***************************************************************************)
-(* DESIGN model of the float generator (float/gen/traits/arbitrary.rs).    *)
-(* The scaling arithmetic is modelled on a small integer line: the lower   *)
-(* bound sits at 0, the upper bound at 4; `from0to1` takes the values 0,   *)
-(* 1/2, 1; the fixed correction delta is 1 when it survives at the bound's *)
-(* magnitude and 0 when it is absorbed (|b| so large that b + delta = b);  *)
-(* the basic value of the one-sided cases is 0, a finite positive number,  *)
-(* the largest finite number (which overflows to infinity when a positive  *)
-(* bound is added) or - without `finite` - an infinity.                    *)
+(* DESIGN model of the float generator (float/gen/traits/arbitrary.rs),    *)
+(* as repaired (see DESIGN.md section 15).  The arithmetic is modelled on  *)
+(* a small integer line: the lower bound sits at 0, the upper bound at 4;  *)
+(* `from0to1` takes the values 0, 1/2, 1; one unit is "one representable   *)
+(* step".  The shape attributes `absorbed` (|bound| so large that adding a *)
+(* small number does not change it) and `overflow` (bounds so far apart /  *)
+(* so large that the naive arithmetic overflows) are magnitude classes of  *)
+(* the DECLARATION; the repaired algorithm must be valid for all of them:  *)
+(*   - two-sided: convex interpolation lower*(1-t) + upper*t (no overflow),*)
+(*     clamped into the closed range, then exact one-step adjustment at an *)
+(*     exclusive boundary (never absorbed);                                *)
+(*   - one-sided: |basic| + bound, brought back to MAX/MIN under `finite`, *)
+(*     then the same exact adjustment.                                     *)
+(* The rounding of the interpolation is modelled by a nondeterministic     *)
+(* error of one step in either direction (before the clamp).               *)
 (*                                                                         *)
-(*   Basic -> Scale/Shift -> AdjustLower -> AdjustUpper -> Construct       *)
+(*   Basic -> Scale/Shift -> Clamp -> AdjustLower -> AdjustUpper -> Construct *)
 (*                                                                         *)
-(* The adjust steps are transcribed exactly as generated, including WHICH  *)
-(* boundary each of them receives.  DECLARATIVE (C09): the result          *)
-(* satisfies every validator.  TLC lists the (shape, input class) pairs    *)
-(* that end in `try_new` rejecting (= panic); the harness then drives the  *)
-(* real generator of concrete declarations of every shape.                 *)
+(* DECLARATIVE (C09): the result satisfies every validator.  Before the    *)
+(* repair TLC listed the (shape, input class) pairs that ended in a panic  *)
+(* (fixed delta absorbed; `upper - lower` overflowing); none is left.      *)
 (***************************************************************************)
 EXTENDS Integers, Sequences, FiniteSets, TLC, Json
 
@@ -49,16 +54,17 @@ FInit == /\ sh \in Shapes /\ (sh.overflow => sh.absorbed) /\ ~(sh.overflow /\ sh
          /\ (inp.b = "inf" => ~sh.finite /\ (sh.lk # "none" \/ sh.uk # "none"))   \* NotNaN kind admits infinities, Finite does not
          /\ pc = "scale" /\ x = Num(0) /\ out = "none"
 
-\* x = lower + from0to1 * (upper - lower).abs()        (two-sided)
-\* x = |basic| + lower   /   x = -|basic| + upper      (one-sided)
+\* x = lower * (1 - from0to1) + upper * from0to1, off by at most one step, clamped into [lower, upper]   (two-sided)
+\* x = |basic| + lower   /   x = -|basic| + upper, brought back to MAX / MIN under `finite`             (one-sided)
+Clamp(v) == IF v < Lo THEN Lo ELSE IF v > Up THEN Up ELSE v
 Scale ==
   /\ pc = "scale"
-  /\ x' = IF TwoSided(sh)
-          THEN (IF sh.overflow THEN (IF inp.t = 0 THEN NaN ELSE Inf)          \* range = inf: 0 * inf = NaN, t * inf = inf
-                ELSE Num(Lo + inp.t))
+  /\ \E err \in {-1, 0, 1} :
+     x' = IF TwoSided(sh)
+          THEN Num(Clamp(Lo + inp.t + err))
           ELSE IF sh.lk # "none"
                THEN (CASE inp.b = "zero" -> Num(Lo) [] inp.b = "pos" -> Num(Lo + 2)
-                       [] inp.b = "maxfinite" -> (IF sh.overflow THEN Inf ELSE Num(Lo + 2))   \* MAX + huge bound overflows; a small bound is absorbed by MAX
+                       [] inp.b = "maxfinite" -> (IF sh.overflow THEN (IF sh.finite THEN Num(Lo + 3) ELSE Inf) ELSE Num(Lo + 2))   \* MAX + huge bound overflows: MAX again under `finite`
                        [] inp.b = "inf" -> Inf)
                ELSE IF sh.uk # "none"
                THEN (CASE inp.b = "zero" -> Num(Up) [] inp.b = "pos" -> Num(Up - 2)
@@ -70,14 +76,16 @@ Scale ==
 \* gen_adjust_x_for_lower_boundary(&lower)
 AdjustLower ==
   /\ pc = "adjust_lower"
-  /\ x' = IF sh.lk = "greater" /\ x.k = "num" /\ x.v <= Lo THEN Add(x, Delta(sh)) ELSE x
+  /\ x' = IF sh.lk = "greater" /\ x.k = "num" /\ x.v <= Lo THEN Num(Lo + 1)            \* the next representable value above the boundary
+          ELSE IF sh.lk = "greater_or_equal" /\ x.k = "num" /\ x.v < Lo THEN Num(Lo) ELSE x
   /\ pc' = "adjust_upper"
   /\ UNCHANGED <<sh, inp, out>>
 
 \* gen_adjust_x_for_upper_boundary(&upper)   (two-sided: fix d7795c5; it used to receive the lower boundary)
 AdjustUpper ==
   /\ pc = "adjust_upper"
-  /\ x' = IF sh.uk = "less" /\ x.k = "num" /\ x.v >= Up THEN Add(x, -Delta(sh)) ELSE x
+  /\ x' = IF sh.uk = "less" /\ x.k = "num" /\ x.v >= Up THEN Num(Up - 1)               \* the next representable value below the boundary
+          ELSE IF sh.uk = "less_or_equal" /\ x.k = "num" /\ x.v > Up THEN Num(Up) ELSE x
   /\ pc' = "construct"
   /\ UNCHANGED <<sh, inp, out>>
 
@@ -97,11 +105,9 @@ Construct ==
 
 FSpec == FInit /\ [][Scale \/ AdjustLower \/ AdjustUpper \/ Construct]_fvars
 
-\* candidates (DESIGN.md section 7, #3 and #4)
-KnownF(s) ==
-  \/ (s.absorbed /\ (s.lk = "greater" \/ s.uk = "less"))       \* #4: fixed delta absorbed at this magnitude
-  \/ s.overflow                                                \* #4: upper - lower overflows
-  \/ (s.finite /\ s.overflow /\ s.lk # "none" /\ ~TwoSided(s))  \* #4: MAX + huge bound = inf under `finite`
+\* (the candidates of DESIGN.md section 7, #3 and #4 - fixed delta absorbed, `upper - lower` overflowing, MAX + bound
+\* under `finite` - are repaired; nothing is excused any more)
+KnownF(s) == FALSE
 
 NoPanicF == (pc = "done") => (out = "ok" \/ KnownF(sh))
 EmitShape == (pc = "scale" /\ inp.t = 0 /\ inp.b = "zero") => PrintT(<<"SHAPE", 0, ToJson([sh |-> sh, known |-> KnownF(sh)])>>)
